@@ -235,9 +235,14 @@ def lint(root: Path, names: list[str], linter=None) -> list[dict]:
     return [{k: v for k, v in d.items() if k != "cross"} for d in C04.lint_all(root, names, linter)]
 
 
-def with_directive(content: str, lang: str, base: list[dict]) -> str | None:
+def with_directive(content: str, lang: str, base: list[dict], bare: bool = False) -> str | None:
     """The base file with a same-line ignore directive on the line of its last movable finding."""
     movable = [v for v in base if v["file"] == 0 and not v["pinned"] and v["sub"]]
+    if bare:
+        # a bare directive silences every rule on its line: keep it off the lines where file-level findings (which do
+        # not move with inserted lines) are reported
+        fixed = {v["line"] for v in base if v["file"] == 0 and v["pinned"]}
+        movable = [v for v in movable if v["line"] not in fixed]
     if not movable:
         return None
     v = max(movable, key=lambda x: x["line"])
@@ -245,7 +250,7 @@ def with_directive(content: str, lang: str, base: list[dict]) -> str | None:
     if not (1 <= v["line"] <= len(lines)) or "thailint" in lines[v["line"] - 1]:
         return None
     cm = "#" if lang == "py" else "//"
-    lines[v["line"] - 1] += f"  {cm} thailint: ignore[{v['linter']}.{v['sub']}]"
+    lines[v["line"] - 1] += f"  {cm} thailint: ignore" + ("" if bare else f"[{v['linter']}.{v['sub']}]")
     return "\n".join(lines) + "\n"
 
 
@@ -266,6 +271,12 @@ def job(j: dict) -> dict:
     for case in j["cases"]:
         if case["edits"][0]["pos"] == 4:
             ats = safe_boundaries(padded[main], lang)
+            if case["edits"][0]["kind"] == "trailing":
+                # spaces appended to a line: safe where neither the line nor its successor lies inside a multi-line
+                # token, and the line does not end in a continuation backslash
+                src_lines = padded[main].rstrip("\n").split("\n")
+                ok = set(ats)
+                ats = [a for a in range(1, len(src_lines) + 1) if a in ok and (a + 1) in ok and not src_lines[a - 1].rstrip().endswith("\\")]
             if linter in ("file-header", "lazy-ignores"):
                 ats = [a for a in ats if a > 12]
             if j.get("sweep_step", 1) > 1:
@@ -297,8 +308,8 @@ def job(j: dict) -> dict:
     # once as is and once with an inline directive in the file: every step starts from the original text
     import random as _random
     rnd = _random.Random(j["root"])
-    for variant in ("plain", "directive"):
-        content0 = padded[main] if variant == "plain" else with_directive(padded[main], lang, base)
+    for variant in ("plain", "directive", "bare-directive"):
+        content0 = padded[main] if variant == "plain" else with_directive(padded[main], lang, base, bare=variant != "directive")
         if content0 is None:
             continue
         rootv = Path(j["root"]) / f"inplace-{variant}"
@@ -314,7 +325,13 @@ def job(j: dict) -> dict:
         base_v = lint(rootv, names, held)
         usable = [c for c in j["cases"] if c["edits"][0]["pos"] != 4 and not (linter in ("file-header", "lazy-ignores") and any(
             e["pos"] == 0 and e["kind"] in ("blank", "comment") for e in c["edits"]))]
-        for ci, case in enumerate(rnd.sample(usable, min(j.get("inplace_len", 8), len(usable)))):
+        picked = rnd.sample(usable, min(j.get("inplace_len", 8), len(usable)))
+        if variant != "plain":
+            # always: spaces appended to the very line that carries the directive
+            dline = next(i for i, l in enumerate(content0.split("\n"), 1) if "thailint: ignore" in l
+                         and "thailint: ignore" not in (padded[main].split("\n") + [""] * i)[i - 1])
+            picked = [{"edits": [{"kind": "trailing", "pos": 4, "at_line": dline}]}] + picked[:-1]
+        for ci, case in enumerate(picked):
             new, concrete = apply_edits(content0, lang, case["edits"])
             with open(rootv / main, "w", encoding="utf-8", newline="") as f:
                 f.write(new)
